@@ -17,6 +17,7 @@ import (
 
 	"github.com/anacrolix/dht/v2"
 	"github.com/anacrolix/dht/v2/krpc"
+	peer_store "github.com/anacrolix/dht/v2/peer-store"
 	"github.com/anacrolix/log"
 	"golang.org/x/time/rate"
 
@@ -52,6 +53,9 @@ type hist struct {
 	keep     []sim.Out
 	dense    bool
 	resendNs int64 // when non-zero: resend delay of own queries (default one hour)
+	hook     bool  // OnQuery is set and vetoes queries whose transaction ID starts with 'V'
+	ps       bool  // a peer store is configured
+	ihs      []krpc.ID
 }
 
 func fam(ip net.IP) int {
@@ -261,8 +265,15 @@ func (h *hist) evQuery() {
 	method := []string{"ping", "find_node", "get_peers", "get", "find_node", "get_peers"}[rng.Intn(6)]
 	ro := rng.Intn(7) == 0
 	t := h.nextT()
+	vetoed := h.hook && rng.Intn(3) == 0
+	if vetoed {
+		t = "V" + t
+	}
 	a := idArg(p)
 	target, other := h.randTarget(), h.randTarget()
+	if h.ps && method == "get_peers" && rng.Intn(2) == 0 {
+		target = h.ihs[rng.Intn(len(h.ihs))] // a swarm this node may hold peers for
+	}
 	var want []string
 	switch rng.Intn(6) {
 	case 0:
@@ -300,7 +311,7 @@ func (h *hist) evQuery() {
 	drop := h.dropped(p.addr)
 	h.inject(sim.Encode(m), p.addr)
 	h.emit("RecvQuery", h.senderOf(p), ro, false, drop, sim.M{"method": method})
-	if drop {
+	if drop || vetoed {
 		return
 	}
 	r, ok := h.waitOut(p.addr.String(), "r", []byte(t), 3*time.Second)
@@ -316,6 +327,9 @@ func (h *hist) evQuery() {
 		return
 	}
 	rd := r.Dict("r")
+	if vals, has := rd.List("values"); has && len(vals) > 0 {
+		return // peers instead of nodes (BEP 5): nothing to judge here, the values are C11's business
+	}
 	w4, w6 := fam(p.addr.IP) == 4, fam(p.addr.IP) == 6
 	if len(want) != 0 {
 		w4, w6 = false, false
@@ -351,6 +365,34 @@ func (h *hist) evQuery() {
 	h.tr.Emit(ans)
 }
 
+// evAnnounce: a peer fetches a token and announces itself for one of the swarms (two inbound queries, both
+// table events); later get_peers for that swarm from the other address family must still carry nodes
+func (h *hist) evAnnounce() {
+	rng := h.rng
+	p := h.peers[rng.Intn(len(h.peers))]
+	if p.noId || h.dropped(p.addr) {
+		return
+	}
+	ih := h.ihs[rng.Intn(len(h.ihs))]
+	t := h.nextT()
+	h.inject(sim.Encode(sim.D("t", t, "y", "q", "q", "get_peers", "a", idArg(p).Set("info_hash", ih[:]))), p.addr)
+	h.emit("RecvQuery", h.senderOf(p), false, false, false, sim.M{"method": "get_peers"})
+	r, ok := h.waitOut(p.addr.String(), "r", []byte(t), 3*time.Second)
+	if !ok {
+		h.tr.Emit(sim.M{"seg": h.seg, "e": "NoReply", "method": "get_peers"})
+		return
+	}
+	tok, ok := r.Dict("r").Str("token")
+	if !ok {
+		return
+	}
+	t = h.nextT()
+	h.inject(sim.Encode(sim.D("t", t, "y", "q", "q", "announce_peer", "a",
+		idArg(p).Set("info_hash", ih[:]).Set("token", tok).Set("port", 1+rng.Intn(65535)))), p.addr)
+	h.emit("RecvQuery", h.senderOf(p), false, false, false, sim.M{"method": "announce_peer"})
+	h.waitOut(p.addr.String(), "r", []byte(t), 3*time.Second)
+}
+
 // evResponse: our own ping to a peer, answered in one of several ways.
 func (h *hist) evResponse(questionable bool) {
 	rng := h.rng
@@ -362,12 +404,15 @@ func (h *hist) evResponse(questionable bool) {
 	h.conn.Take()
 	ctx, cancel := context.WithCancel(context.Background())
 	done := make(chan struct{})
+	ownMethod := []string{"ping", "ping", "find_node", "get_peers", "get"}[rng.Intn(5)]
+	ownTarget := h.randTarget()
 	go func() {
 		defer close(done)
 		if questionable {
 			h.srv.VerifQuestionablePing(ctx, dht.NewAddr(p.addr), p.id)
 		} else {
-			h.srv.Query(ctx, dht.NewAddr(p.addr), "ping", dht.QueryInput{})
+			// any of the node's own queries: what the answer does to the table does not depend on the method
+			h.srv.Query(ctx, dht.NewAddr(p.addr), ownMethod, dht.QueryInput{MsgArgs: krpc.MsgArgs{Target: ownTarget, InfoHash: ownTarget}})
 		}
 	}()
 	finish := func() { cancel(); <-done }
@@ -598,6 +643,15 @@ func (h *hist) run(events int) {
 	cfg.SendLimiter = rate.NewLimiter(rate.Inf, 1)
 	cfg.Logger = log.Default.FilterLevel(log.Critical)
 	cfg.IPBlocklist = h.block.Clone()
+	h.ps = rng.Intn(2) == 0
+	if h.ps {
+		cfg.PeerStore = &peer_store.InMemory{}
+	}
+	h.hook = rng.Intn(3) == 0
+	if h.hook {
+		// a query hook that keeps some queries from being answered: the sender has queried all the same
+		cfg.OnQuery = func(m *krpc.Msg, _ net.Addr) bool { return !(len(m.T) > 0 && m.T[0] == 'V') }
+	}
 	srv, err := dht.NewServer(cfg)
 	if err != nil {
 		panic(err)
@@ -607,6 +661,9 @@ func (h *hist) run(events int) {
 	if autoId {
 		h.root = srv.ID()
 		h.genPeers()
+	}
+	if h.ps {
+		h.ihs = []krpc.ID{h.randTarget(), h.randTarget()}
 	}
 	h.tr.Emit(sim.M{"seg": h.seg, "e": "Start", "root": sim.Hex(h.root[:]), "nosec": h.nosec})
 	var snap []dht.VerifNode
@@ -620,6 +677,10 @@ func (h *hist) run(events int) {
 			} else {
 				x = rng.Intn(38) // inbound queries
 			}
+		}
+		if h.ps && rng.Intn(8) == 0 {
+			h.evAnnounce()
+			continue
 		}
 		switch {
 		case x < 38:
